@@ -53,6 +53,10 @@ MISSED = {
     "C14-7": "recurring tasks were installed on the 1/8 s grid only; `recurring_near_slot` added",
     "C14-8": "deferred callables were all plain closures; `deferred_kinds` (partial, callable instance, bound method, lambda) added",
     "C14-9": "due times were at least 1/8 s apart; `sched_close` (tasks 0.4 ms apart, clock read at firing) added",
+    "C09-4": "the changed decoder formats the (symbolic) mask into text: every path ended UNKNOWN or the tree exploded - "
+             "inconclusive, not a violation; concrete-table instances with arbitrary masks added, and undecided instances are "
+             "now probed concretely (12.1)",
+    "C17-9": "every path built one object per class; `two_objects` added",
     "C10-5": "no frame carried a source network; `routed_noise` (garbage claiming a remote source, then a relayed valid request) added",
 }
 
